@@ -7,6 +7,7 @@ mod c03;
 mod c04;
 mod c05;
 mod c06;
+mod c07;
 mod c08;
 mod c10;
 mod c11;
@@ -33,6 +34,7 @@ fn dispatch(ctx: &Ctx, replay: Option<&serde_json::Value>) {
         "C04" => c04::run(ctx, replay),
         "C05" => c05::run(ctx, replay),
         "C06" => c06::run(ctx, replay),
+        "C07" => c07::run(ctx, replay),
         "C08" => c08::run(ctx, replay),
         "C10" => c10::run(ctx, replay),
         "C11" => c11::run(ctx, replay),
